@@ -961,6 +961,8 @@ class Interp:
             if f.name in self.summaries:
                 return self.summaries[f.name](self, args, kwargs, node, fr)
             return self.lib.call_ref(self, f.name, args, kwargs, node, fr)
+        if isinstance(f, Unk) and getattr(f, "attr_of", None) is not None:
+            return self.lib.call_method(self, f.attr_of[0], f.attr_of[1], args, kwargs, node, fr)
         if isinstance(f, Unk):
             self.record("call", "?" + tm.show(f.term), args, dict(kwargs), node)
             return Unk(call("apply", f.term, *[to_term(a) for a in args]), why="call of unknown")
